@@ -1,0 +1,38 @@
+//go:build verif
+
+package announce
+
+// Test-only accessors for the verification harness (build tag verif).
+
+// VerifLRU exposes the duplicate-filter LRU.
+type VerifLRU struct{ l *stringLRU }
+
+func NewVerifLRU(maxEntries int) *VerifLRU { return &VerifLRU{l: newStringLRU(maxEntries)} }
+
+func (v *VerifLRU) Update(s string) bool { return v.l.update(s) }
+func (v *VerifLRU) Remove(s string) bool { return v.l.remove(s) }
+func (v *VerifLRU) Len() int             { return v.l.len() }
+
+// Keys returns the cached keys, most recently used first.
+func (v *VerifLRU) Keys() []string {
+	return lruKeys(v.l)
+}
+
+func lruKeys(l *stringLRU) []string {
+	keys := make([]string, 0, l.ll.Len())
+	for e := l.ll.Front(); e != nil; e = e.Next() {
+		keys = append(keys, e.Value.(string))
+	}
+	return keys
+}
+
+// VerifSetCacheSize replaces the receiver's duplicate filter with an empty one of
+// the given capacity. Call before use.
+func (r *Receiver) VerifSetCacheSize(maxEntries int) {
+	r.announceMutex.Lock()
+	r.announceCache = newStringLRU(maxEntries)
+	r.announceMutex.Unlock()
+}
+
+// VerifCacheSize returns the capacity of the receiver's duplicate filter.
+func (r *Receiver) VerifCacheSize() int { return r.announceCache.max }
